@@ -96,5 +96,5 @@ def twin_and_escalate(ctx):
 
 def run(ctx):
     return run_solver_property(ctx, "C04", codes=("C01", "C04", "C08.absent", "C08.finite", "C15"), focus_mix=("updates", "updates", "mixed"),
-                               extra_theorem_files=("Properties_C15.v", "Properties_C13.v", "Properties_C01.v", "Properties_C10.v"),
+                               extra_theorem_files=("Properties_C15.v", "Properties_C13.v", "Properties_C01.v", "Properties_C10.v", "Properties_C01_e2e.v"),
                                extra_stage=twin_and_escalate)
